@@ -15,7 +15,8 @@
 (***************************************************************************)
 EXTENDS OciClientFaults, Json
 
-CONSTANTS PageSizes, MaxResp, MaxCalls, Families, Lite
+CONSTANTS PageSizes, MaxResp, MaxCalls, Families,
+          Level     \* "full": the whole alphabets (property check); "export": thinned after the first response; "lite": small
 VARIABLES budget, ncalls, h
 mcvars == <<vars, budget, ncalls, h>>
 
@@ -35,6 +36,8 @@ R0 == [code |-> 200, loc |-> "none", rf |-> "none", ra |-> 0, rb |-> 0, cl |-> 0
 Net == [R0 EXCEPT !.code = NetErr]
 
 \* error responses: status x (content type, body class); none of it moves the machine
+Lite == Level = "lite"
+Full == Level = "full"
 ErrShapes == IF Lite THEN {<<"json", "errjson">>, <<"none", "empty">>}
              ELSE {<<"json", "errjson">>, <<"json", "wsjson">>, <<"jsonp", "trunc">>, <<"json", "huge">>, <<"json", "endless">>,
                    <<"text", "garbage">>, <<"none", "empty">>, <<"bad", "errjson">>}
@@ -59,8 +62,11 @@ OkAlpha(step, first) ==
   CASE step = "resolve" ->
          {WithDig([R0 EXCEPT !.cl = c, !.ctype = t], d) : c \in {-1, 0, 2}, d \in Digs, t \in {"none", "manifest"}}
     [] step = "read" ->
-         IF first
+         IF first /\ ~Lite
          THEN {WithBody(WithDig([R0 EXCEPT !.cl = c], d), b, e) : c \in CLs, d \in Digs, b \in Bodies, e \in Ends}
+         ELSE IF first
+         THEN {WithBody(WithDig([R0 EXCEPT !.cl = c], d), b, e) : c \in {-1, 0, 1, 2, 3}, d \in DigsLite, b \in {"c", "w", "s", "l", "e"}, e \in Ends}
+              \cup {WithBody(WithDig([R0 EXCEPT !.cl = Big], d), b, e) : d \in {<<"none", "", "">>, <<"ok", "sha256", "B">>}, b \in {"B", "Bw", "Bs", "Bl"}, e \in Ends}
          ELSE {WithBody(WithDig([R0 EXCEPT !.cl = c], d), b, "eof") : c \in {-1, 2}, d \in DigsLite, b \in {"c", "w"}}
     [] step = "head2" ->
          {WithDig([R0 EXCEPT !.cl = c], d) : c \in {-1, 2, Big, Big + 1}, d \in Digs}
@@ -79,27 +85,34 @@ OkAlpha(step, first) ==
                     <<"empty", 0>>, <<"trunc", 0>>, <<"garbage", 0>>, <<"hugelist", 0>>}, e \in Ends}
     [] step = "post1" -> {[R0 EXCEPT !.code = 202, !.loc = l] : l \in Locs}
     [] step = "start" ->
-         {[R0 EXCEPT !.code = 202, !.loc = l, !.mf = mm[1], !.mv = mm[2]] :
-             l \in (IF first THEN Locs ELSE {"path"}),
-             mm \in {<<"none", 0>>, <<"bad", 0>>, <<"num", 1>>, <<"num", 3>>, <<"num", Huge>>}}
+         LET mms == {<<"none", 0>>, <<"bad", 0>>, <<"num", 1>>, <<"num", 3>>, <<"num", Huge>>} IN
+         IF Full THEN {[R0 EXCEPT !.code = 202, !.loc = l, !.mf = mm[1], !.mv = mm[2]] : l \in Locs, mm \in mms}
+         ELSE {[R0 EXCEPT !.code = 202, !.loc = l] : l \in (IF Lite THEN LocsLite ELSE Locs)}
+              \cup {[R0 EXCEPT !.code = 202, !.loc = "path", !.mf = mm[1], !.mv = mm[2]] : mm \in mms}
     [] step \in {"patch", "commit"} ->
-         {[R0 EXCEPT !.code = c, !.loc = l] : c \in OkCodes(step), l \in LocsLite}
+         {[R0 EXCEPT !.code = c, !.loc = l] : c \in OkCodes(step), l \in (IF Full THEN LocsLite ELSE {"none", "bad", "path", "url"})}
     [] step = "status" ->
-         {[R0 EXCEPT !.code = 204, !.loc = l, !.rf = rr[1], !.ra = rr[2], !.rb = rr[3], !.mf = mm[1], !.mv = mm[2]] :
-             l \in {"none", "bad", "path", "url"},
-             rr \in {<<"none", 0, 0>>, <<"empty", 0, 0>>, <<"nodash", 0, 0>>, <<"nonnum", 0, 0>>, <<"num", 0, 0>>,
-                     <<"num", 0, 1>>, <<"num", 0, 3>>, <<"num", 2, 3>>, <<"num", 0, -3>>},
-             mm \in {<<"none", 0>>, <<"num", 3>>, <<"num", Huge>>}}
+         {[R0 EXCEPT !.code = 204, !.loc = x[1], !.rf = x[2][1], !.ra = x[2][2], !.rb = x[2][3], !.mf = x[3][1], !.mv = x[3][2]] :
+           x \in {y \in
+             {"none", "bad", "path", "url"} \X
+                   {<<"none", 0, 0>>, <<"empty", 0, 0>>, <<"nodash", 0, 0>>, <<"nonnum", 0, 0>>, <<"num", 0, 0>>,
+                     <<"num", 0, 1>>, <<"num", 0, 3>>, <<"num", 2, 3>>, <<"num", 0, -3>>} \X
+                   {<<"none", 0>>, <<"num", 3>>, <<"num", Huge>>} :
+             Full \/ (y[1] = "path" /\ (y[2][1] = "num" \/ y[3][1] = "none")) \/ (y[2] = <<"num", 0, 1>> /\ y[3][1] = "none")}}
     [] step = "page" ->
-         LET cnts == {x \in {0, 1, N - 1, N, N + 1} : x >= 0} IN
+         LET cnts == {x \in {0, 1, N - 1, N, N + 1} : x >= 0}
+             thin == ~Full /\ (~first \/ Lite) IN
          {[R0 EXCEPT !.body = "list", !.items = i, !.link = lk, !.bend = e, !.ctype = "json"] :
-             i \in cnts, lk \in {"none", "empty", "ok", "nolt", "nogt", "badurl"}, e \in Ends}
+             i \in cnts, lk \in (IF thin THEN {"none", "ok", "badurl"} ELSE {"none", "empty", "ok", "nolt", "nogt", "badurl"}),
+             e \in (IF thin THEN {"eof"} ELSE Ends)}
          \cup {[R0 EXCEPT !.body = b, !.ctype = "json", !.link = lk] :
-                 b \in {"wszero", "wserr", "empty", "trunc", "garbage"}, lk \in {"none", "ok"}}
+                 b \in (IF thin THEN {"wszero", "garbage"} ELSE {"wszero", "wserr", "empty", "trunc", "garbage"}),
+                 lk \in (IF thin THEN {"ok"} ELSE {"none", "ok"})}
+         \cup {[R0 EXCEPT !.body = "list", !.items = N, !.link = "none", !.bend = "cut", !.ctype = "json"]}
     [] OTHER -> {}
 
 Alpha(step) ==
-  IF fl.on \/ cq > 0 THEN OkAlpha(step, FALSE) \cup {[R0 EXCEPT !.code = 404, !.ctype = "json", !.body = "errjson"], Net}
+  IF fl.on \/ cq > 0 \/ (~Full /\ ncalls > 1) THEN OkAlpha(step, FALSE) \cup {[R0 EXCEPT !.code = 404, !.ctype = "json", !.body = "errjson"], Net}
   ELSE OkAlpha(step, TRUE) \cup Errs(step) \cup Redirs \cup {Net}
 
 -----------------------------------------------------------------------------
@@ -119,10 +132,11 @@ TopCallsOf(Family) ==
     [] Family = "range" ->
          {[Cl("GetBlobRange") EXCEPT !.ref = "digest", !.o0 = o[1], !.o1 = o[2]] : o \in {<<0, MinusOne>>, <<1, MinusOne>>, <<0, 1>>, <<1, 2>>, <<0, 0>>}}
     [] Family = "list" ->
-         {[Cl(nm) EXCEPT !.take = t, !.start = s] : nm \in {"Repositories", "Tags"}, t \in {0, 1, 3}, s \in BOOLEAN}
+         {[Cl(x[1]) EXCEPT !.take = x[2], !.start = x[3]] :
+             x \in {y \in {"Repositories", "Tags"} \X {0, 1, 3} \X BOOLEAN : Full \/ y[2] = 0 \/ ~y[3]}}
     [] Family = "upload" ->
-         {[Cl("PushBlobChunked") EXCEPT !.hint = hh] : hh \in {0, 2}}
-         \cup {[Cl("Resume") EXCEPT !.off = MinusOne, !.idform = "path", !.hint = hh] : hh \in {0, 2}}
+         {[Cl("PushBlobChunked") EXCEPT !.hint = hh] : hh \in {0, 1, 2}}
+         \cup {[Cl("Resume") EXCEPT !.off = MinusOne, !.idform = "path", !.hint = hh] : hh \in {0, 1}}
          \cup {[Cl("Resume") EXCEPT !.off = o, !.idform = f, !.hint = 2] :
                   o \in {-2, 0, 3}, f \in {"path", "url", "rel", "bad", "empty"}}
     [] OTHER -> {}
